@@ -1,4 +1,4 @@
 #!/bin/bash
 # like seed_matrix.sh but only for the ids given as a grep pattern ($1)
 cd /verif
-ls seeded | grep -E -e "$1" | xargs -P 6 -I{} sh -c 's={}; p=${s%%-*}; out=$(VERIF_NOSHRINK=1 tools/mutant_check.sh /verif/seeded/$s/patch.diff $p 2>&1 | grep -E "tier=quick|does not apply|HARNESS|VIOLATION.*no-failing" | tail -2 | tr "\n" " "); echo "$s $out"' | sort
+ls seeded | grep -E -e "$1" | xargs -P ${MATRIX_P:-6} -I{} sh -c 's={}; p=${s%%-*}; out=$(VERIF_NOSHRINK=1 tools/mutant_check.sh /verif/seeded/$s/patch.diff $p 2>&1 | grep -E "tier=quick|does not apply|HARNESS|VIOLATION.*no-failing" | tail -2 | tr "\n" " "); echo "$s $out"' | sort
